@@ -256,6 +256,19 @@ def grid(ctx):
                         coeff = coeff[:-1] + "7"
                 for sign in ("", "-"):
                     yield [sign, coeff, e]
+    # integers next to the limits of the machine integers (a conversion that goes through i8 ... u128 or f64 changes them), also written
+    # with fraction zeros and as a multiple of a power of ten
+    for bits in dec.POW2_BITS + [24, 52, 62, 65, 96, 127, 128]:
+        for d in (-2, -1, 0, 1, 2):
+            c = str(2 ** bits + d)
+            if len(c) > 34:
+                continue
+            for sign in ("", "-"):
+                yield [sign, c, 0]
+                if len(c) <= 32:
+                    yield [sign, c + "00", -2]
+                if c.endswith("0"):
+                    yield [sign, c.rstrip("0"), len(c) - len(c.rstrip("0"))]
 
 
 # ---- part 5: the other renderings of a number: string(), and numbers inside printed lists and contexts ----------------------
